@@ -1,0 +1,46 @@
+//go:build verif
+
+package scparser
+
+// Contracts for the verif build tag (comment-only; see /verif/DESIGN.md).
+
+//@ prop C12
+//@ import opcode github.com/nspcc-dev/neo-go/pkg/vm/opcode
+//@ import stackitem github.com/nspcc-dev/neo-go/pkg/vm/stackitem
+
+//@ pkg-invariant errNoInstParam != nil
+
+//@ func (*Context).IP
+//@ inline
+//@ func (*Context).LenInstr
+//@ inline
+//@ func (*Context).CurrInstr
+//@ inline
+
+// Instruction decoding never reads outside the script, whatever the script bytes and
+// the (non-negative) position are; a returned parameter is a sub-slice of the script.
+//@ func (*Context).Next
+//@ requires c != nil && 0 <= c.nextip
+//@ modifies c.ip, c.nextip
+//@ ensures[end] old(c.nextip) >= len(c.prog) ==> result0 == opcode.RET && result1 == nil && result2 == nil && c.nextip == old(c.nextip)
+//@ ensures[ip] c.ip == old(c.nextip)
+//@ ensures[advance] result2 == nil && old(c.nextip) < len(c.prog) ==> c.ip < c.nextip && c.nextip <= len(c.prog) && result0 == c.prog[c.ip]
+//@ ensures[param] result2 == nil ==> len(result1) <= stackitem.MaxSize && len(result1) < c.nextip - c.ip + 1 && forall(i, 0, len(result1), result1[i] == c.prog[c.nextip - len(result1) + i])
+//@ ensures[pushint] result2 == nil && old(c.nextip) < len(c.prog) && result0 <= opcode.PUSHINT256 ==> (result0 == 0 ==> len(result1) == 1) && (result0 == 1 ==> len(result1) == 2) && (result0 == 2 ==> len(result1) == 4) && (result0 == 3 ==> len(result1) == 8) && (result0 == 4 ==> len(result1) == 16) && (result0 == 5 ==> len(result1) == 32)
+//@ ensures[jmp] result2 == nil && old(c.nextip) < len(c.prog) && (result0 == opcode.JMP || result0 == opcode.JMPIF || result0 == opcode.JMPIFNOT || result0 == opcode.CALL || result0 == opcode.ENDTRY) ==> len(result1) == 1
+//@ ensures[jmpl] result2 == nil && old(c.nextip) < len(c.prog) && (result0 == opcode.JMPL || result0 == opcode.JMPIFL || result0 == opcode.JMPIFNOTL || result0 == opcode.CALLL || result0 == opcode.ENDTRYL || result0 == opcode.PUSHA || result0 == opcode.SYSCALL) ==> len(result1) == 4
+//@ ensures[try] result2 == nil && old(c.nextip) < len(c.prog) && result0 == opcode.TRY ==> len(result1) == 2
+//@ ensures[tryl] result2 == nil && old(c.nextip) < len(c.prog) && result0 == opcode.TRYL ==> len(result1) == 8
+//@ ensures[data1] result2 == nil && old(c.nextip) < len(c.prog) && result0 == opcode.PUSHDATA1 ==> len(result1) == c.prog[c.ip+1]
+
+//@ func (*Context).CalcJumpOffset
+//@ requires c != nil && 0 <= c.ip && c.ip < len(c.prog)
+//@ ensures[range] result2 == nil ==> 0 <= result0 && result0 <= len(c.prog) && result0 == c.ip + result1
+//@ ensures[short] result2 == nil && len(parameter) == 1 ==> result1 == ite(parameter[0] < 128, parameter[0], parameter[0] - 256)
+//@ ensures[len] result2 == nil ==> len(parameter) == 1 || len(parameter) == 4
+
+//@ func (*Context).Jump
+//@ requires c != nil
+//@ panics-if pos < 0 || pos >= len(c.prog)
+//@ modifies c.nextip
+//@ ensures c.nextip == pos
